@@ -15,7 +15,7 @@ RULE = (
     "unit translation, and a three-step rotation ladder about every axis; non-trivial = distinct (mesh, spar) configurations"
 )
 ASSUMPTIONS = ["finite alphabets for mesh shapes and spar locations; nx<=4, ny<=5", "OpenMDAO/NumPy trusted"]
-BOUND = {"quick": "nx<=3, ny<=5", "thorough": "nx<=4, ny<=7"}
+BOUND = {"quick": "nx<=4, ny<=5; export chain: every ordered selection of 1-3 surfaces x 3 symmetry patterns", "thorough": "nx<=5, ny<=7"}
 TOL = 1e-10
 
 
@@ -33,6 +33,12 @@ def states(tier, seed):
         st.append(dict(part="loads", nx=nx, ny=ny, side=side, pf=pf, origin=fo, fam=fam))
     for nx, (side, ny), pf, nsurf in itertools.product(nxs, sides, ["swept", "twdi"], [1, 2]):
         st.append(dict(part="mpf", nx=nx, ny=ny, side=side, pf=pf, nsurf=nsurf, fam=fam))
+    # the flattened nodal vectors handed to external solvers (MPhys export chain) for every ordered selection of 1-3 surfaces
+    # of different sizes
+    for n in (1, 2, 3):
+        for sel in itertools.permutations(range(3), n):
+            for symp in ("all", "none", "mixed"):
+                st.append(dict(part="export", sel=list(sel), symp=symp, fam=fam))
     for nx, (side, ny), pf, fo in itertools.product(nxs, sides, ["swept", "twdi", "camber"], [0.35, 0.0, 1.0, "wingbox", "wingbox+key"]):
         if pf == "camber" and nx < 3:
             continue
@@ -148,6 +154,81 @@ def part_loads(s):
             if not e <= TOL:
                 viol.append(dict(sig=dict(oracle="additivity", observable="loads", **wh), msg="loads(e%d+e%d) != loads(e%d)+loads(e%d): %.2e" % (i, j, i, j, e), measure=float(e)))
     return dict(viol=viol, nontrivial=True, digest=digest_arrays(np.array(basis)), transitions=runs, validated=val)
+
+
+EXPORT_SPECS = [dict(pf="swept", nx=3, ny=5, off=None), dict(pf="rect", nx=2, ny=3, off=[5.0, 0.0, 0.7], span=3.0, chord=0.8), dict(pf="twdi", nx=4, ny=3, off=[-4.0, 0.0, -0.6], span=5.0, chord=1.0)]
+
+
+def part_export(s):
+    """AeroMesh + MeshPointForces + MuxSurfaceForces (+ DemuxSurfaceMesh): the exported pair (coordinates, nodal forces) carries the
+    total force and moment of the panel forces acting at the quarter-chord points, on the jig and on a deformed mesh"""
+    from mphys.core import MPhysVariables
+    from openaerostruct.aerodynamics.mesh_point_forces import MeshPointForces
+    from openaerostruct.mphys.aero_mesh import AeroMesh
+    from openaerostruct.mphys.demux_surface_mesh import DemuxSurfaceMesh
+    from openaerostruct.mphys.mux_surface_forces import MuxSurfaceForces
+
+    fam = s["fam"]
+    surfs = []
+    for pos, k in enumerate(s["sel"]):
+        sp = EXPORT_SPECS[k]
+        sym = {"all": True, "none": False, "mixed": pos % 2 == 0}[s["symp"]]
+        kw = dict(span=sp["span"], chord=sp["chord"]) if "span" in sp else {}
+        m = gen.make_mesh(sp["pf"], sp["nx"], sp["ny"] if sym else 2 * sp["ny"] - 1, "left" if sym else "full", fam, asym=not sym, offset=sp["off"], **kw)
+        surfs.append(builders.aero_surface("s%d" % k, m, sym))
+    p = om.Problem(reports=False)
+    p.model.add_subsystem("mesh", AeroMesh(surfaces=surfs), promotes=["*"])
+    p.model.add_subsystem("pf", MeshPointForces(surfaces=surfs), promotes=["*"])
+    p.model.add_subsystem("mux", MuxSurfaceForces(surfaces=surfs), promotes=["*"])
+    p.setup()
+    q = om.Problem(reports=False)
+    q.model.add_subsystem("demux", DemuxSurfaceMesh(surfaces=surfs), promotes=["*"])
+    q.setup()
+    XN, X0N, FN = MPhysVariables.Aerodynamics.Surface.COORDINATES, MPhysVariables.Aerodynamics.Surface.Mesh.COORDINATES, MPhysVariables.Aerodynamics.Surface.LOADS
+    viol, val = [], 0
+    wh = dict(nsurf=len(surfs), symp=s["symp"])
+    refs = [np.zeros(3), np.array([0.7, -1.3, 0.4])]
+    # force fields: one generic field on all surfaces, then one surface loaded at a time (first and last panel, unit force)
+    fields = [{sf["name"]: gen.gen((sf["mesh"].shape[0] - 1, sf["mesh"].shape[1] - 1, 3), 7 + i, -2e3, 3e3, fam) for i, sf in enumerate(surfs)}]
+    for sf in surfs:
+        for idx in (0, -1):
+            F = {x["name"]: np.zeros((x["mesh"].shape[0] - 1, x["mesh"].shape[1] - 1, 3)) for x in surfs}
+            F[sf["name"]].reshape(-1, 3)[idx] = [1.0e3, -2.0e3, 3.0e3]
+            fields.append(F)
+    ntot = sum(sf["mesh"].shape[0] * sf["mesh"].shape[1] for sf in surfs)
+    for F in fields:
+        for n, f in F.items():
+            p.set_val(n + "_sec_forces", f)
+        p.run_model()
+        fa = np.array(p.get_val(FN)).reshape(-1, 3)
+        x0 = np.array(p.get_val(X0N)).reshape(-1, 3)
+        val += 1
+        if fa.shape[0] != ntot or x0.shape[0] != ntot:
+            viol.append(dict(sig=dict(oracle="export_size", **wh), msg="exported vectors have %d / %d nodes, the surfaces have %d" % (fa.shape[0], x0.shape[0], ntot), measure=1.0))
+            continue
+        xd = x0 + 0.05 * np.sin(1.7 * x0[:, [1, 2, 0]] + np.array([0.3, 0.1, 0.8]))
+        q.set_val(XN, xd.ravel())
+        q.run_model()
+        sc = max(np.abs(f).max() for f in F.values())
+        Ftot = sum(f.reshape(-1, 3).sum(axis=0) for f in F.values())
+        val += 1
+        e = np.abs(fa.sum(axis=0) - Ftot).max() / sc
+        if not e <= TOL:
+            viol.append(dict(sig=dict(oracle="force_conservation", observable="exported_nodal_forces", **wh), msg="exported nodal forces sum to %s, the panel forces to %s (rel %.2e)" % (fa.sum(axis=0), Ftot, e), measure=float(e)))
+        for tag, X, meshes in (("jig", x0, {sf["name"]: sf["mesh"] for sf in surfs}), ("deformed", xd, {sf["name"]: np.array(q.get_val(sf["name"] + "_def_mesh")) for sf in surfs})):
+            for r in refs:
+                val += 1
+                Ma = np.zeros(3)
+                for n, f in F.items():
+                    m = meshes[n]
+                    qc = 0.75 * m[:-1] + 0.25 * m[1:]
+                    pts = 0.5 * (qc[:, :-1] + qc[:, 1:])
+                    Ma += np.cross(pts - r, f).reshape(-1, 3).sum(axis=0)
+                Mn = np.cross(X - r, fa).sum(axis=0)
+                e = np.abs(Mn - Ma).max() / (sc * max(np.abs(X - r).max(), 1.0))
+                if not e <= TOL:
+                    viol.append(dict(sig=dict(oracle="moment_conservation", observable="exported_nodal_forces", mesh=tag, **wh), msg="moment of the exported nodal forces on the %s mesh differs from that of the panel forces by %.2e" % (tag, e), measure=float(e)))
+    return dict(viol=viol, nontrivial=True, digest=digest_arrays(fa, x0), transitions=len(fields), validated=val)
 
 
 def part_mpf(s):
